@@ -71,12 +71,22 @@ RULE = ("(1) every history of length<=L (quick 4; thorough 6 for DictLoader, 5 f
         "first) -- the same after every direct cache use; accepted iff some state of the reference model "
         "predicts exactly that (so: no stale serve, no needless reload of a valid cached template, "
         "eviction only when room is needed and only of the least recently used entry, no lost or "
-        "duplicate entry). distinct = distinct op sequences of length 2..5 (length-6 ones are "
+        "duplicate entry). (5) how the environment under test came to be: every 12th (loader, cache "
+        "size, auto_reload) execution of the enumerated histories, every 5th of the long ones and "
+        "every 6th of the cache-API ones is repeated on an environment DERIVED with the documented "
+        "Environment.overlay (shares everything with the original except the cache and the overridden "
+        "attributes), the way of derivation rotating: overlay() of an environment that has loaded "
+        "nothing yet / of one that has templates cached / of an overlay; overlay(cache_size=n) of an "
+        "environment with another cache size; overlay(auto_reload=x) of one with the opposite "
+        "setting; overlay(loader=...) of one with the other loader -- the reference model is the "
+        "same (empty cache of the inherited or overridden size and auto_reload setting), and after "
+        "the history the cache of the environment the overlay came from must hold what it held "
+        "before. distinct = distinct op sequences of length 2..5 (length-6 ones are "
         "only counted, see histories_len6) + distinct random long histories + distinct cache-API "
         "histories of length>=2")
 LEVEL_TEXT = ("held on every enumerated (history, cache size, auto_reload, loader) execution up to the "
               "stated length bound, incl. the histories in which the application uses env.cache "
-              "directly; nothing is claimed for longer histories, more than 3 names or concurrent use")
+              "directly and a rotating share executed on Environment.overlay-derived environments; nothing is claimed for longer histories, more than 3 names or concurrent use")
 ASSUMPTIONS = [
     "single-threaded use of the environment; at most 3 template names, 2 source versions per name, 2 loaders",
     "FileSystemLoader change detection is exercised only through distinct whole-second mtimes set with "
@@ -97,6 +107,9 @@ ASSUMPTIONS = [
     "bytecode caches: an in-memory BytecodeCache subclass and FileSystemBytecodeCache, both counting "
     "loads that came back with code; a bytecode cache is expected to be invisible in everything the "
     "check observes (loader calls, template identity, text, cache content); memcached is not used",
+    "overlay environments: an overlay made without cache_size is taken to have an empty cache of the "
+    "parent's size (the documentation says it shares all data except the cache and the overridden "
+    "attributes); overlays are created once, before the history starts",
     "swapping env.loader is only enumerated with auto_reload on (the documentation does not say what a "
     "non-reloading environment does after its loader attribute is replaced)",
 ]
@@ -124,7 +137,12 @@ FLOORS = {
                            "cacheop_insert_new_key_into_full_cache": 1100, "cacheop_iterate": 1000,
                            "cacheop_setdefault_hit": 900, "cacheop_setdefault_miss": 3400,
                            "cacheop_setdefault_miss_on_full_cache": 550, "cacheop_setitem": 4300,
-                           "lookup_served_template_put_by_application": 900}},
+                           "lookup_served_template_put_by_application": 900,
+                           "exec_overlay": 5500, "exec_ov_cold": 900, "exec_ov_warm": 900,
+                           "exec_ov_size": 900, "exec_ov_ar": 900, "exec_ov_loader": 900,
+                           "exec_ov_chain": 900, "overlay_lookups": 15000,
+                           "overlay_served_from_cache": 3400,
+                           "overlay_parent_cache_untouched_checks": 5500}},
     "thorough": {"evaluations": 650000, "distinct": 12000,
                  "counters": {"lookups": 1700000, "loader_calls": 1400000,
                               "served_from_cache": 280000, "reload_of_cached": 13000,
@@ -152,7 +170,12 @@ FLOORS = {
                               "cacheop_setdefault_miss": 34000,
                               "cacheop_setdefault_miss_on_full_cache": 5500,
                               "cacheop_setitem": 43000,
-                              "lookup_served_template_put_by_application": 9000}},
+                              "lookup_served_template_put_by_application": 9000,
+                              "exec_overlay": 55000, "exec_ov_cold": 9000, "exec_ov_warm": 9000,
+                              "exec_ov_size": 9000, "exec_ov_ar": 9000, "exec_ov_loader": 9000,
+                              "exec_ov_chain": 9000, "overlay_lookups": 150000,
+                              "overlay_served_from_cache": 40000,
+                              "overlay_parent_cache_untouched_checks": 55000}},
 }
 
 NAMES = ("a", "b", "c")
@@ -477,7 +500,60 @@ def key_maker():
     return mk
 
 
-def run_history(kit, kind, size, ar, hist, stats=None, bcc="none"):
+# how the environment under test came to be: constructed directly or derived
+# from another environment with the documented Environment.overlay (an overlay
+# "shares all the data with the current environment except for cache and the
+# overridden attributes": its own, initially empty cache, configured like the
+# parent's unless cache_size is overridden)
+DERIVS = ("ov_cold", "ov_warm", "ov_size", "ov_ar", "ov_loader", "ov_chain")
+DERIV_TAG = {"ov_cold": "overlay()-of-env-that-loaded-nothing",
+             "ov_warm": "overlay()-of-env-with-cached-templates",
+             "ov_size": "overlay(cache_size)-of-env-with-other-cache-size",
+             "ov_ar": "overlay(auto_reload)-of-env-with-opposite-setting",
+             "ov_loader": "overlay(loader)-of-env-with-other-loader",
+             "ov_chain": "overlay()-of-an-overlay"}
+OTHER_SIZE = {0: 2, 1: -1, 2: 1, 3: 0, -1: 3}
+
+
+def derive_env(deriv, loaders, size, ar, bc):
+    """(environment under test, the environment it was derived from).  The
+    environment under test is always meant to have loader 0, cache size
+    ``size`` and auto_reload ``ar`` -- by inheritance or by override."""
+    from jinja2 import Environment
+
+    def warm(e):
+        for n in ("a", "c"):
+            e.get_template(n).render()
+
+    if deriv == "ov_cold":
+        parent = Environment(loader=loaders[0], cache_size=size, auto_reload=ar, bytecode_cache=bc)
+        return parent.overlay(), parent
+    if deriv == "ov_warm":
+        parent = Environment(loader=loaders[0], cache_size=size, auto_reload=ar, bytecode_cache=bc)
+        warm(parent)
+        return parent.overlay(), parent
+    if deriv == "ov_size":
+        parent = Environment(loader=loaders[0], cache_size=OTHER_SIZE[size], auto_reload=ar,
+                             bytecode_cache=bc)
+        warm(parent)
+        return parent.overlay(cache_size=size), parent
+    if deriv == "ov_ar":
+        parent = Environment(loader=loaders[0], cache_size=size, auto_reload=not ar,
+                             bytecode_cache=bc)
+        return parent.overlay(auto_reload=ar), parent
+    if deriv == "ov_loader":
+        parent = Environment(loader=loaders[1], cache_size=size, auto_reload=ar, bytecode_cache=bc)
+        warm(parent)
+        return parent.overlay(loader=loaders[0]), parent
+    if deriv == "ov_chain":
+        root = Environment(loader=loaders[0], cache_size=size, auto_reload=ar, bytecode_cache=bc)
+        mid = root.overlay()
+        warm(mid)
+        return mid.overlay(), mid
+    raise AssertionError(deriv)
+
+
+def run_history(kit, kind, size, ar, hist, stats=None, bcc="none", deriv="direct"):
     """Execute one history.  Returns None or (key, what)."""
     from jinja2 import Environment, TemplateNotFound
 
@@ -494,8 +570,17 @@ def run_history(kit, kind, size, ar, hist, stats=None, bcc="none"):
         loaders.append(ld)
         mappings.append(mp)
     bc = kit.bytecode_cache(bcc, kind, loaders)
+    parent = parent_before = None
+    if deriv == "direct":
+        env = Environment(loader=loaders[0], cache_size=size, auto_reload=ar, bytecode_cache=bc)
+    else:
+        try:
+            env, parent = derive_env(deriv, loaders, size, ar, bc)
+        except Exception as e:  # noqa: BLE001
+            return (f"exception:{type(e).__name__}:creating:{DERIV_TAG[deriv]}",
+                    f"{kindtag(kind)} size {size} auto_reload {ar}: {type(e).__name__}: {e}")
+        parent_before = observe_cache(parent, loaders)
     del calls[:]
-    env = Environment(loader=loaders[0], cache_size=size, auto_reload=ar, bytecode_cache=bc)
     from_bc = set()    # idents of templates whose code came out of the bytecode cache
     cfg = M.Cfg(size, ar, has_check=(kind != "func"), binding_stamp=(kind == "funcup"))
     states = {()}
@@ -508,6 +593,8 @@ def run_history(kit, kind, size, ar, hist, stats=None, bcc="none"):
     tag = f"{kindtag(kind)}:auto_reload={'on' if ar else 'off'}:size={sizeclass(size)}"
     if bc is not None:
         tag += f":bytecode_cache={bcc}"
+    if deriv != "direct":
+        tag += f":env={DERIV_TAG[deriv]}"
 
     def setsrc(lid, name, val):
         w = worlds[lid]
@@ -802,6 +889,10 @@ def run_history(kit, kind, size, ar, hist, stats=None, bcc="none"):
         if stats is not None:
             stats["lookups"] += 1
             stats["loader_calls"] += len(calls)
+            if deriv != "direct":
+                stats["overlay_lookups"] += 1
+                if res != M.NF and not calls:
+                    stats["overlay_served_from_cache"] += 1
             if res == M.NF:
                 stats["notfound"] += 1
             elif not calls:
@@ -840,6 +931,16 @@ def run_history(kit, kind, size, ar, hist, stats=None, bcc="none"):
         bad = check_cache(step, op, "")
         if bad:
             return bad
+    if parent is not None:
+        # the overlay has a cache of its own: the environment it came from must
+        # not have noticed any of the loads above
+        now = observe_cache(parent, loaders)
+        if now != parent_before:
+            return (f"overlay:cache-of-the-original-env-changed:{tag}",
+                    f"history {list(hist)}: cache of the environment the overlay was made from "
+                    f"held {parent_before} before and {now} after the overlay's lookups")
+        if stats is not None:
+            stats["overlay_parent_cache_untouched_checks"] += 1
     return None
 
 
@@ -928,7 +1029,9 @@ STAT_KEYS = ("cache_api_ops", "cacheop_skipped_no_source", "cacheop_setdefault_h
              "cache_keys_unreadable", "cache_content_checks", "cache_order_checks",
              "reload_in_full_cache", "fs_reload_mtime_backwards", "empty_template_served",
              "lookup_of_deleted_cached", "pkg_reload_check_on_deleted_file",
-             "bytecode_hits", "lookup_of_changed_bytecode_loaded")
+             "bytecode_hits", "lookup_of_changed_bytecode_loaded",
+             "overlay_lookups", "overlay_served_from_cache",
+             "overlay_parent_cache_untouched_checks")
 
 
 def random_history(rng, length):
@@ -997,15 +1100,23 @@ def part_cacheapi(ctx, kit, stats, quick):
         for si, size in enumerate(sizes):
             kind = CA_KINDS[(idx + si) % len(CA_KINDS)]
             ar = ((idx // len(CA_KINDS)) + si) % 2 == 0
-            bad = run_history(kit, kind, size, ar, hist, stats)
-            ctx.ev()
-            ctx.count("exec_" + kind)
-            ctx.count("exec_cacheapi")
-            if size == 3:
-                ctx.count("exec_size3")
-            if bad:
-                ctx.violation(bad[0], bad[1], {"kind": kind, "size": size, "auto_reload": ar,
-                                               "hist": list(hist), "part": "cacheapi", "bcc": "none"})
+            derivs = ["direct"]
+            if (idx + si) % 6 == 0:
+                derivs.append(DERIVS[((idx + si) // 6) % len(DERIVS)])
+            for deriv in derivs:
+                bad = run_history(kit, kind, size, ar, hist, stats, deriv=deriv)
+                ctx.ev()
+                ctx.count("exec_" + kind)
+                ctx.count("exec_cacheapi")
+                if size == 3:
+                    ctx.count("exec_size3")
+                if deriv != "direct":
+                    ctx.count("exec_overlay")
+                    ctx.count("exec_" + deriv)
+                if bad:
+                    ctx.violation(bad[0], bad[1], {"kind": kind, "size": size, "auto_reload": ar,
+                                                   "hist": list(hist), "part": "cacheapi",
+                                                   "bcc": "none", "deriv": deriv})
         ctx.count("cacheapi_histories")
         if len(hist) >= 2:
             ctx.dist(hist)
@@ -1019,12 +1130,15 @@ def part_cacheapi(ctx, kit, stats, quick):
 
 
 def exec_all(ctx, kit, stats, hist, kinds, sizes, part, off_kinds=None, rot=0, bcc_every=0,
-             bcc_modes=("cold", "warm")):
+             bcc_modes=("cold", "warm"), ov_every=0):
     """Run one history for every (loader kind, cache size, auto_reload);
     auto_reload off only for off_kinds when given.  bcc_every = k > 0: every
     k-th (kind, size, auto_reload) combination -- rotating with ``rot`` from
     history to history -- is executed a second time with a bytecode cache
-    configured, the modes rotating too."""
+    configured, the modes rotating too.  ov_every = k > 0: every k-th
+    combination is also executed on an environment obtained through
+    Environment.overlay (DERIVS rotating), with the bytecode-cache mode chosen
+    for that combination, if any."""
     has_swap = "w" in hist
     changes = any(o[0] in "mn" for o in hist)
     n = 0
@@ -1046,8 +1160,11 @@ def exec_all(ctx, kit, stats, hist, kinds, sizes, part, off_kinds=None, rot=0, b
                 modes = ["none"]
                 if bcc_every and combo % bcc_every == 0:
                     modes.append(bcc_modes[(combo // bcc_every) % len(bcc_modes)])
-                for bcc in modes:
-                    bad = run_history(kit, kind, size, ar, hist, stats, bcc)
+                runs = [(bcc, "direct") for bcc in modes]
+                if ov_every and combo % ov_every == 0:
+                    runs.append((modes[-1], DERIVS[(combo // ov_every) % len(DERIVS)]))
+                for bcc, deriv in runs:
+                    bad = run_history(kit, kind, size, ar, hist, stats, bcc, deriv)
                     n += 1
                     ctx.ev()
                     ctx.count("exec_" + kind)
@@ -1055,10 +1172,14 @@ def exec_all(ctx, kit, stats, hist, kinds, sizes, part, off_kinds=None, rot=0, b
                         ctx.count("exec_bcc_" + bcc)
                     if size == 3:
                         ctx.count("exec_size3")
+                    if deriv != "direct":
+                        ctx.count("exec_overlay")
+                        ctx.count("exec_" + deriv)
                     if bad:
                         ctx.violation(bad[0], bad[1],
                                       {"kind": kind, "size": size, "auto_reload": ar,
-                                       "hist": list(hist), "part": part, "bcc": bcc})
+                                       "hist": list(hist), "part": part, "bcc": bcc,
+                                       "deriv": deriv})
     return n
 
 
@@ -1073,7 +1194,7 @@ def part_long(ctx, kit, stats, quick):
         # bounded sizes always; 0 and unbounded alternately (the exhaustive part has them)
         exec_all(ctx, kit, stats, hist, LONG_KINDS, (1, 2, 3, (0, -1)[i % 2]), "long",
                  off_kinds=("dict", "fs", "pkg"), rot=i, bcc_every=2,
-                 bcc_modes=("cold", "warm", "fswarm"))
+                 bcc_modes=("cold", "warm", "fswarm"), ov_every=5)
         ctx.count("long_histories")
         ctx.dist(hist)
         if i < 2 and ctx.shard == 0:
@@ -1083,7 +1204,7 @@ def part_long(ctx, kit, stats, quick):
             chist = random_cache_history(rng, rng.randint(lo, hi))
             nx = exec_all(ctx, kit, stats, chist, LONG_KINDS, (1, 2, 3, -1), "long",
                           off_kinds=("dict", "fs", "pkg"), rot=i, bcc_every=2,
-                          bcc_modes=("cold", "warm", "fswarm"))
+                          bcc_modes=("cold", "warm", "fswarm"), ov_every=5)
             ctx.count("exec_cacheapi", nx)
             ctx.count("long_cacheapi_histories")
             ctx.dist(chist)
@@ -1123,7 +1244,7 @@ def run(ctx):
                     continue        # a<->b renaming of an enumerated history
                 nexec += exec_all(ctx, kit, stats, hist, kinds,
                                   SIZES_LONG if len(hist) >= 5 else SIZES, "exhaustive",
-                                  rot=idx, bcc_every=10)
+                                  rot=idx, bcc_every=10, ov_every=12)
                 if 2 <= len(hist) <= 5:
                     ctx.dist(hist)
                 elif len(hist) == 6:
@@ -1150,7 +1271,8 @@ def replay(ctx, case):
     kit = Kit()
     try:
         bad = run_history(kit, case["kind"], case["size"], case["auto_reload"],
-                          tuple(case["hist"]), bcc=case.get("bcc", "none"))
+                          tuple(case["hist"]), bcc=case.get("bcc", "none"),
+                          deriv=case.get("deriv", "direct"))
         if bad:
             ctx.violation(bad[0], bad[1], case)
     finally:
